@@ -3,8 +3,10 @@
    system driven by an oracle).  "repaired" = behaviour after build/proposed_fixes/C05_*.diff,
    "as_found" = unpatched code (F20, F11), kept to state the refutations.
 
-   STATUS (see notes/C05.md): the statements marked _partial are the ONE-STEP laws (every state, every
-   program; in RT with no physical time in scope).  The WHOLE-EXECUTION statements -- kth_resume_time_nrt,
+   STATUS (see notes/C05.md): wake_step_law_rt, wake_step_law_nrt and play_step_law are ONE-STEP laws: they
+   hold in EVERY state (reachable or not), for every program, without guards on the deltas, and in RT with no
+   physical time in scope; they were the stand-ins (then named *_partial) for the whole-execution statements
+   and are kept because they say that much more.  The WHOLE-EXECUTION statements -- kth_resume_time_nrt,
    kth_resume_time_rt, child_starts_at_parent_time, child_starts_at_parent_time_rt, nrt_time_monotone --
    are proved in proofs/C05_exec.v by a scheduling invariant that links every queue entry to the progress
    of its routine (the entry of routine rid is due at beat B rid + sum of the first r_k deltas of its body;
@@ -17,17 +19,12 @@ Require Import SC3.proofs.C05_frame SC3.proofs.C07_runs SC3.proofs.C05_props SC3
 Import ListNotations.
 Open Scope Q_scope.
 
-(* FULL STATEMENT (not proved): for every program p with non-negative initial tempi, every oracle
-   sched and all rid k c s b c0 s0 b0 body:
-     In (EvResume rid k c s b) (n_log (rs (rt_run off p sched))) ->
-     In (EvResume rid 0 c0 s0 b0) (n_log (rs (rt_run off p sched))) -> body = script of rid ->
-     b == b0 + Qsum (firstn k (yields body)) /\ s == beats2secs_c(b);
-   and the same for nrt_loop repaired (for as_found under n_f11 = false).
-   PROVED: (1) what a woken routine observes is determined by the key of its task alone:
-   logical seconds = beats2secs(key), clock.beats = key; rt_wake has no physical-time argument, so
-   the observation is the same under every wake-up latency, load and interleaving;
-   (2) a routine that yields d is queued at key + d (not at "now" + d). *)
-Theorem kth_resume_time_rt_partial : forall off p st e r,
+(* One wake-up in real time, ANY state with well-formed tempo clocks, any task e of any routine:
+   (1) what the woken routine observes is determined by the key of its task alone: logical seconds =
+   beats2secs(key), clock.beats == key; rt_wake has no physical-time argument, so the observation is the same
+   under every wake-up latency, load and interleaving; (2) a routine that yields d is queued at key + d (not
+   at "now" + d).  The whole-execution law built on it is kth_resume_time_rt below. *)
+Theorem wake_step_law_rt : forall off p st e r,
   nth_error (n_routs st) (e_rid e) = Some r -> wf_tcs (n_tcs st) ->
   (exists beats, In (EvResume (e_rid e) (r_k r) (e_clock e) (Qred (b2s (n_tcs st) (e_clock e) (e_time e))) beats)
                     (n_log (rt_wake off p st e)) /\ beats == e_time e) /\
@@ -45,9 +42,10 @@ Proof.
   - intros st2 d rest T E. exact (rt_wake_resched off p st e r st2 d rest Hr E).
 Qed.
 
-(* NRT one-step law, as-found or repaired code: the routine is re-queued at
-   beats2secs(beats + d) where beats is what it observed at this resumption *)
-Theorem kth_resume_time_nrt_partial : forall qk p st e r st2 d rest,
+(* One wake-up in non-real time, ANY state, as-found or repaired code: the routine is re-queued at
+   beats2secs(beats + d) where beats is what it observed at this resumption (whole executions:
+   kth_resume_time_nrt below) *)
+Theorem wake_step_law_nrt : forall qk p st e r st2 d rest,
   nth_error (n_routs st) (e_rid e) = Some r ->
   let T := e_time e in
   let beats := Qred (s2b (n_tcs st) (e_clock e) T) in
@@ -69,10 +67,11 @@ Theorem kth_resume_time_nrt_as_found_refuted :
   In (EvResume 0 1 (CTempo 0) (5#16) (1#2)) (n_log (nrt_run repaired f11_prog 10)).
 Proof. exact f11_refuted. Qed.
 
-(* FULL STATEMENT (not proved): In (EvPlay o child c T) log -> In (EvResume child 0 c' s b) log -> s == T.
-   PROVED: play() queues the child at the caller's logical time T on every clock (repaired NRT code;
-   RT: the key converts back to T) *)
-Theorem child_starts_at_parent_time_partial : forall qk off st T c rid, wf_tcs (n_tcs st) ->
+(* play() in ANY state with well-formed tempo clocks, no guard on the deltas: the child is queued at the
+   caller's logical time T on every clock (repaired NRT code; RT: the key converts back to T).  That it then
+   STARTS at T is child_starts_at_parent_time / _rt below (NRT needs deltas >= 0: a task that goes back in
+   time may change the tempo before the child runs). *)
+Theorem play_step_law : forall qk off st T c rid, wf_tcs (n_tcs st) ->
   (qk_app_abs qk = false ->
    exists e, In e (n_q (nrt_sched_play None qk st T c rid)) /\ e_rid e = rid /\ e_clock e = c /\ e_time e == T) /\
   (c <> CApp ->
@@ -111,7 +110,7 @@ Proof. exact nrt_elapsed_last. Qed.
 (* ys_of p r = the deltas yielded by the body the routine instance r runs (up to its first Return).
    sec_ok c s b: on a clock without tempo (SystemClock, AppClock) seconds = beats; on a TempoClock the
    seconds are beats2secs(beats) under the tempo map of the moment of the resumption (the beats logged are
-   secs2beats of the seconds: kth_resume_time_*_partial above). *)
+   secs2beats of the seconds: wake_step_law_* above). *)
 
 (* NRT, every program, every fuel, the repaired code (no guard on the deltas: also negative ones): the
    beat observed at the k-th resumption of a routine = the beat of its first resumption + the sum of the
@@ -185,7 +184,9 @@ Example c05_sigma_instance :
   (3#4) == (1#2) + Qsum (firstn 2 [1#8; 1#8]).
 Proof. vm_compute. repeat split; try tauto; discriminate. Qed.
 
-Print Assumptions kth_resume_time_rt_partial.
+Print Assumptions wake_step_law_rt.
+Print Assumptions wake_step_law_nrt.
+Print Assumptions play_step_law.
 Print Assumptions kth_resume_time_nrt.
 Print Assumptions kth_resume_time_rt.
 Print Assumptions child_starts_at_parent_time.
